@@ -488,3 +488,55 @@ func init() {
 		fmt.Println("REPLAY: not-reproduced")
 	}
 }
+
+func init() {
+	replayers["(*RollingFileAppender).clearExpiredFiles"] = func(in map[string]any) {
+		dir, err := os.MkdirTemp("", "govc-replay-c14-")
+		if err != nil {
+			fmt.Println("REPLAY: not-reproduced (no temp dir)")
+			return
+		}
+		defer os.RemoveAll(dir)
+		old := timeNowMinusHours(100)
+		type f struct {
+			name     string
+			old, dir bool
+			own      bool
+		}
+		files := []f{
+			{"app.log.20200101000000", true, false, true},
+			{"app.log.20200101000001", false, false, true},
+			{"app.log.wf.20200101000000", true, false, false},
+			{"app.log.bak", true, false, false},
+			{"app.log.1.gz", true, false, false},
+			{"app.log.2020010100000", true, false, false},
+			{"app.log.2020010100000x", true, false, false},
+			{"app.logx.20200101000000", true, false, false},
+			{"other.20200101000000", true, false, false},
+			{"app.log.20200101000002", true, true, true},
+		}
+		for _, x := range files {
+			p := dir + "/" + x.name
+			if x.dir {
+				os.Mkdir(p, 0755)
+			} else {
+				os.WriteFile(p, []byte("x"), 0644)
+			}
+			if x.old {
+				os.Chtimes(p, old, old)
+			}
+		}
+		a := &RollingFileAppender{FileDir: dir, FileName: "app.log", MaxAge: 1}
+		a.clearExpiredFiles()
+		for _, x := range files {
+			_, err := os.Stat(dir + "/" + x.name)
+			gone := err != nil
+			want := x.own && x.old && !x.dir
+			if gone != want {
+				fmt.Printf("REPLAY: confirmed clearExpiredFiles(FileName=app.log, MaxAge=1h): %q removed=%v, want removed=%v (only non-directory entries named app.log.<14 digits> older than MaxAge may go)\n", x.name, gone, want)
+				return
+			}
+		}
+		fmt.Println("REPLAY: not-reproduced")
+	}
+}
